@@ -61,7 +61,7 @@ Fixpoint last_set (i : N) (evs : list event) : option bool :=
       | Some x => Some x
       | None => if N.eqb i j then Some b else None
       end
-  | Gen _ _ :: tl => last_set i tl
+  | Gen _ _ :: tl | GenFail _ _ :: tl => last_set i tl
   end.
 
 Definition flag_at (f0 : N -> bool) (before : list event) (i : N) : bool :=
@@ -73,6 +73,9 @@ Proof. intros. unfold flag_at, upd. cbn. destruct (last_set i l); [reflexivity|]
 Lemma flag_at_gen : forall f0 j p l i, flag_at f0 (Gen j p :: l) i = flag_at f0 l i.
 Proof. reflexivity. Qed.
 
+Lemma flag_at_genfail : forall f0 j p l i, flag_at f0 (GenFail j p :: l) i = flag_at f0 l i.
+Proof. reflexivity. Qed.
+
 (* the k-th event, if it is a generation, is computed from the flag in force at that moment *)
 Theorem run_nth : forall cfg evs f0 k i p,
   nth_error evs k = Some (Gen i p) ->
@@ -82,13 +85,25 @@ Proof.
   - destruct k; discriminate.
   - destruct k as [|k].
     + cbn in H. inversion H; subst. reflexivity.
-    + cbn [nth_error] in H. cbn [firstn]. destruct e as [j b|j q]; cbn [run nth_error].
+    + cbn [nth_error] in H. cbn [firstn]. destruct e as [j b|j q|j q]; cbn [run nth_error].
       * rewrite flag_at_set. apply IH. exact H.
       * rewrite flag_at_gen. apply IH. exact H.
+      * rewrite flag_at_genfail. apply IH. exact H.
 Qed.
 
 Lemma run_length : forall cfg evs f0, length (run cfg f0 evs) = length evs.
-Proof. induction evs as [|[j b|j q] tl IH]; intro f0; cbn; auto. Qed.
+Proof. induction evs as [|[j b|j q|j q] tl IH]; intro f0; cbn; auto. Qed.
+
+(* a generation whose State read fails yields nothing, on every path, whatever the flag is *)
+Lemma run_nth_fail : forall cfg evs f0 k i p,
+  nth_error evs k = Some (GenFail i p) -> nth_error (run cfg f0 evs) k = Some None.
+Proof.
+  induction evs as [|e tl IH]; intros f0 k i p H.
+  - destruct k; discriminate.
+  - destruct k as [|k].
+    + cbn in H. inversion H; subst. reflexivity.
+    + cbn [nth_error] in H. destruct e; cbn [run nth_error]; eapply IH; exact H.
+Qed.
 
 Lemma run_nth_set : forall cfg evs f0 k i b,
   nth_error evs k = Some (SetFwd i b) -> nth_error (run cfg f0 evs) k = Some None.
@@ -103,7 +118,7 @@ Qed.
 (* ---- independence of interfaces *)
 
 Definition concerns (B : N) (e : event) : bool :=
-  match e with SetFwd i _ => N.eqb i B | Gen i _ => N.eqb i B end.
+  match e with SetFwd i _ => N.eqb i B | Gen i _ | GenFail i _ => N.eqb i B end.
 
 Definition outs_of (B : N) (l : list (option out)) : list out :=
   flat_map (fun x => match x with Some o => if N.eqb (o_iface o) B then [o] else [] | None => [] end) l.
@@ -112,7 +127,8 @@ Lemma outs_filter : forall cfg B evs f f',
   f B = f' B -> outs_of B (run cfg f evs) = outs_of B (run cfg f' (filter (concerns B) evs)).
 Proof.
   induction evs as [|e tl IH]; intros f f' H; [reflexivity|].
-  destruct e as [i b|i p]; cbn [run filter concerns].
+  destruct e as [i b|i p|i p]; cbn [run filter concerns]; cycle 2.
+  - destruct (N.eqb i B) eqn:E; cbn [run outs_of flat_map app]; apply IH; exact H.
   - destruct (N.eqb i B) eqn:E; cbn [run outs_of flat_map app].
     + apply IH. unfold upd. rewrite N.eqb_sym, E. reflexivity.
     + change (outs_of B (run cfg (upd f i b) tl) = outs_of B (run cfg f' (filter (concerns B) tl))).
@@ -140,7 +156,7 @@ Lemma last_set_app : forall i l1 l2,
 Proof.
   induction l1 as [|e l1 IH]; intro l2; cbn.
   - destruct (last_set i l2); reflexivity.
-  - destruct e as [j b|j p]; rewrite ?IH; [|reflexivity].
+  - destruct e as [j b|j p|j p]; rewrite ?IH; [|reflexivity|reflexivity].
     destruct (last_set i l2); [reflexivity|]. reflexivity.
 Qed.
 
@@ -154,6 +170,9 @@ Proof.
 Qed.
 
 Lemma flag_at_snoc_gen : forall f0 l i j p, flag_at f0 (l ++ [Gen j p]) i = flag_at f0 l i.
+Proof. intros. unfold flag_at. rewrite last_set_app. reflexivity. Qed.
+
+Lemma flag_at_snoc_genfail : forall f0 l i j p, flag_at f0 (l ++ [GenFail j p]) i = flag_at f0 l i.
 Proof. intros. unfold flag_at. rewrite last_set_app. reflexivity. Qed.
 
 (* ---- everything about the k-th generation at once *)
